@@ -2,6 +2,7 @@ package nc
 
 import (
 	"fmt"
+	"go/token"
 	"go/types"
 	"regexp"
 	"sort"
@@ -148,6 +149,7 @@ func C01(p *Prog, r *Run) {
 
 	r.Rule("C01.3", "ordered insertion: structural mutators add genes and nodes only through geneInsert / nodeInsert; both helpers are the same algorithm modulo the key and return a list containing the new element", func() {
 		r.c01OrderedInsertion()
+		r.c01ScanBound()
 	})
 
 	r.Rule("C01.4", "crossover keeps children well-formed: interface nodes seeded, endpoints are child nodes chosen by the gene's own endpoint ids, no genetically equal link twice, child nodes enter through nodeInsert (shared with C04)", func() {
@@ -248,6 +250,10 @@ func C01(p *Prog, r *Run) {
 			}
 		}
 		r.Floor("reuse-path node creations", n, 1)
+	})
+
+	r.Rule("C01.8", "one number, one gene: a new gene carries a freshly issued innovation number or the number of a record that was matched under the complete key (kind, in node, out node, recurrence resp. split gene) - otherwise a genome can receive two genes with the same number (rules shared with C03.1-C03.3)", func() {
+		c03Core(p, r, NewSummaries(p))
 	})
 
 	r.Rule("C01.7", "duplication remaps every node and trait reference by id into the copy's own lists (shared with C06)", func() {
@@ -419,5 +425,85 @@ func (r *Run) c01OrderedInsertion() {
 			}
 		}
 		r.Check(ok, fn.Name()+".contains-new", p.Pos(fn.Pos()), "every returned list contains the new element", fn.Name()+" "+why)
+	}
+}
+
+// c01ScanBound: the ordered-insertion helpers look for the split index by walking a cursor down the list.
+// The walk may end early only because the split point was found; the only index bound it may respect is the
+// beginning of the list. Every comparison of the descending cursor with a constant must therefore mean
+// `cursor >= 0` (or its negation): `cursor > 0` leaves position 0 unexamined and an element that belongs
+// right after the first one is appended at the end.
+func (r *Run) c01ScanBound() {
+	p := r.P
+	for _, name := range []string{"geneInsert", "nodeInsert"} {
+		fn := p.Func(PkgG, name)
+		var cursors []*ssa.Phi
+		for _, l := range Loops(fn) {
+			for _, ph := range HeaderPhis(l) {
+				for i, e := range ph.Edges {
+					if !l.Blocks[l.Header.Preds[i]] {
+						continue
+					}
+					if b, ok := e.(*ssa.BinOp); ok && b.X == ssa.Value(ph) {
+						if k, isK := b.Y.(*ssa.Const); isK && k.Value != nil && ((b.Op == token.SUB && k.Int64() == 1) || (b.Op == token.ADD && k.Int64() == -1)) {
+							cursors = append(cursors, ph)
+						}
+					}
+				}
+			}
+		}
+		if len(cursors) == 0 {
+			r.OK(name+".scan-bound", p.Pos(fn.Pos()), "no descending index scan in this helper")
+			continue
+		}
+		n := 0
+		ok, why := true, ""
+		isCursor := func(v ssa.Value) bool {
+			for _, c := range cursors {
+				if v == ssa.Value(c) {
+					return true
+				}
+				// the value a cursor has after the loop (exit phi) or one step further
+				if w := phiWeb(v); w.Phis[c] && len(w.Feeders) == 0 {
+					return true
+				}
+			}
+			return false
+		}
+		Instrs(fn, func(_ *ssa.BasicBlock, _ int, in ssa.Instruction) {
+			b, isB := in.(*ssa.BinOp)
+			if !isB {
+				return
+			}
+			op := b.Op
+			x, y := b.X, b.Y
+			if _, isK := x.(*ssa.Const); isK {
+				x, y = y, x
+				op = mirrorCmp(op)
+			}
+			k, isK := y.(*ssa.Const)
+			if !isK || k.Value == nil || !isCursor(x) {
+				return
+			}
+			switch op {
+			case token.GEQ, token.LSS:
+				n++
+				if k.Int64() != 0 {
+					ok, why = false, fmt.Sprintf("cursor %s %d at %s", op, k.Int64(), p.Pos(b.Pos()))
+				}
+			case token.GTR, token.LEQ:
+				n++
+				if k.Int64() != -1 {
+					ok, why = false, fmt.Sprintf("cursor %s %d at %s", op, k.Int64(), p.Pos(b.Pos()))
+				}
+			case token.EQL, token.NEQ:
+				n++
+				if k.Int64() != -1 {
+					ok, why = false, fmt.Sprintf("cursor %s %d at %s", op, k.Int64(), p.Pos(b.Pos()))
+				}
+			}
+		})
+		r.Check(ok && n > 0, name+".scan-bound", p.Pos(fn.Pos()), "the split-index scan is bounded only by the beginning of the list (cursor >= 0)",
+			name+": the scan for the split index stops on `"+why+"`, not at the beginning of the list: a position is never examined and an element that belongs there is put at the end, the list is no longer ascending")
 	}
 }
